@@ -105,37 +105,48 @@ mod party_sim {
     use ciphercore_base::mpc::mpc_compiler::{prepare_for_mpc_evaluation, IOStatus};
     use serde_json::json;
 
+    // what the parties know about a value: `h[p]` = party p can compute it; `local` = it depends on a party's OWN randomness (a Random
+    // node that was not sent), so different parties compute different versions of it and only a Send makes one version common
     #[derive(Clone, Debug)]
-    enum K { Leaf([bool; 3]), Fresh, Tup(Vec<K>) }
+    enum K { Leaf([bool; 3], bool), Tup(Vec<K>) }
     impl K {
         fn holders(&self) -> [bool; 3] {
             match self {
-                K::Leaf(s) => *s,
-                K::Fresh => [false; 3],
+                K::Leaf(s, _) => *s,
                 K::Tup(v) => { let mut r = [true; 3]; for k in v { let h = k.holders(); for i in 0..3 { r[i] &= h[i]; } } r }
             }
         }
+        fn local(&self) -> bool { match self { K::Leaf(_, l) => *l, K::Tup(v) => v.iter().any(|k| k.local()) } }
+        // holders that agree on ONE value
+        fn common(&self) -> [bool; 3] { if self.local() { [false; 3] } else { self.holders() } }
         fn send(&self, s: usize, r: usize) -> std::result::Result<K, String> {
             match self {
-                K::Fresh => { let mut h = [false; 3]; h[s] = true; h[r] = true; Ok(K::Leaf(h)) }
-                K::Leaf(h) => { if !h[s] { return Err(format!("party {} sends a value held only by {:?}", s, h)); } let mut h = *h; h[r] = true; Ok(K::Leaf(h)) }
+                K::Leaf(h, l) => { if !h[s] { return Err(format!("party {} sends a value held only by {:?}", s, h)); }
+                    let mut n = if *l { [false; 3] } else { *h }; n[s] = true; n[r] = true; Ok(K::Leaf(n, false)) }
                 K::Tup(v) => { let mut o = vec![]; for k in v { o.push(k.send(s, r)?); } Ok(K::Tup(o)) }
             }
         }
     }
 
-    pub struct Case { pub name: &'static str, pub types: Vec<Type>, pub build: fn(&Graph, &[Node]) -> Result<Node> }
+    pub struct Case { pub name: &'static str, pub types: Vec<Type>, pub build: fn(&Graph, &[Node]) -> Result<Node>, pub exact: bool }
 
     pub fn cases() -> Vec<Case> {
         vec![
-            Case { name: "a+b (i32)", types: vec![scalar_type(INT32), scalar_type(INT32)], build: |_g, i| i[0].add(i[1].clone()) },
-            Case { name: "a-b (i32)", types: vec![scalar_type(INT32), scalar_type(INT32)], build: |_g, i| i[0].subtract(i[1].clone()) },
-            Case { name: "a*b (i32)", types: vec![scalar_type(INT32), scalar_type(INT32)], build: |_g, i| i[0].multiply(i[1].clone()) },
-            Case { name: "a*b+a (u8[2])", types: vec![array_type(vec![2], UINT8), array_type(vec![2], UINT8)], build: |_g, i| i[0].multiply(i[1].clone())?.add(i[0].clone()) },
-            Case { name: "sum(a[1]-b[3]) (i32)", types: vec![array_type(vec![1], INT32), array_type(vec![3], INT32)], build: |_g, i| i[0].subtract(i[1].clone())?.sum(vec![0]) },
-            Case { name: "sum(a[3]+b[1]) (i32)", types: vec![array_type(vec![3], INT32), array_type(vec![1], INT32)], build: |_g, i| i[0].add(i[1].clone())?.sum(vec![0]) },
-            Case { name: "mixed_multiply(i32, bit)", types: vec![scalar_type(INT32), scalar_type(BIT)], build: |_g, i| i[0].mixed_multiply(i[1].clone()) },
-            Case { name: "a AND b (bit[1])", types: vec![array_type(vec![1], BIT), array_type(vec![1], BIT)], build: |_g, i| i[0].multiply(i[1].clone()) },
+            Case { name: "a+b (i32)", types: vec![scalar_type(INT32), scalar_type(INT32)], build: |_g, i| i[0].add(i[1].clone()), exact: true },
+            Case { name: "a-b (i32)", types: vec![scalar_type(INT32), scalar_type(INT32)], build: |_g, i| i[0].subtract(i[1].clone()), exact: true },
+            Case { name: "a*b (i32)", types: vec![scalar_type(INT32), scalar_type(INT32)], build: |_g, i| i[0].multiply(i[1].clone()), exact: true },
+            Case { name: "a*b+a (u8[2])", types: vec![array_type(vec![2], UINT8), array_type(vec![2], UINT8)], build: |_g, i| i[0].multiply(i[1].clone())?.add(i[0].clone()), exact: true },
+            Case { name: "sum(a[1]-b[3]) (i32)", types: vec![array_type(vec![1], INT32), array_type(vec![3], INT32)], build: |_g, i| i[0].subtract(i[1].clone())?.sum(vec![0]), exact: true },
+            Case { name: "sum(a[3]+b[1]) (i32)", types: vec![array_type(vec![3], INT32), array_type(vec![1], INT32)], build: |_g, i| i[0].add(i[1].clone())?.sum(vec![0]), exact: true },
+            Case { name: "mixed_multiply(i32, bit)", types: vec![scalar_type(INT32), scalar_type(BIT)], build: |_g, i| i[0].mixed_multiply(i[1].clone()), exact: true },
+            Case { name: "inverse_permutation(a*b, [1,2,3,0]) (i32[4], public permutation)", types: vec![array_type(vec![4], INT32), array_type(vec![4], INT32)],
+                build: |g, i| { let p = g.constant(array_type(vec![4], UINT64), Value::from_flattened_array(&[1u64, 2, 3, 0], UINT64)?)?; i[0].multiply(i[1].clone())?.apply_inverse_permutation(p) }, exact: true },
+            Case { name: "permutation(a+b, [2,0,3,1]) (i32[4], public permutation)", types: vec![array_type(vec![4], INT32), array_type(vec![4], INT32)],
+                build: |g, i| { let p = g.constant(array_type(vec![4], UINT64), Value::from_flattened_array(&[2u64, 0, 3, 1], UINT64)?)?; i[0].add(i[1].clone())?.apply_permutation(p) }, exact: true },
+            Case { name: "b2a(a2b(a) AND a2b(b)) (u8)", types: vec![scalar_type(UINT8), scalar_type(UINT8)], build: |_g, i| i[0].a2b()?.multiply(i[1].a2b()?)?.b2a(UINT8), exact: true },
+            Case { name: "truncate(a*b, 10) (i64[2])", types: vec![array_type(vec![2], INT64), array_type(vec![2], INT64)], build: |_g, i| i[0].multiply(i[1].clone())?.truncate(10), exact: false },
+            Case { name: "truncate(a*b+a, 8) (i64[2])", types: vec![array_type(vec![2], INT64), array_type(vec![2], INT64)], build: |_g, i| i[0].multiply(i[1].clone())?.add(i[0].clone())?.truncate(8), exact: false },
+            Case { name: "a AND b (bit[1])", types: vec![array_type(vec![1], BIT), array_type(vec![1], BIT)], build: |_g, i| i[0].multiply(i[1].clone()), exact: true },
         ]
     }
 
@@ -168,24 +179,24 @@ mod party_sim {
             let k = match node.get_operation() {
                 Operation::Input(_) => {
                     let k = match &owners[input_id] {
-                        IOStatus::Party(p) => { let mut h = [false; 3]; h[*p as usize] = true; K::Leaf(h) }
-                        IOStatus::Public => K::Leaf([true; 3]),
-                        IOStatus::Shared => K::Tup((0..3).map(|i| { let mut h = [false; 3]; h[i] = true; h[(i + 2) % 3] = true; K::Leaf(h) }).collect()),
+                        IOStatus::Party(p) => { let mut h = [false; 3]; h[*p as usize] = true; K::Leaf(h, false) }
+                        IOStatus::Public => K::Leaf([true; 3], false),
+                        IOStatus::Shared => K::Tup((0..3).map(|i| { let mut h = [false; 3]; h[i] = true; h[(i + 2) % 3] = true; K::Leaf(h, false) }).collect()),
                     };
                     input_id += 1;
                     k
                 }
-                Operation::Random(_) => K::Fresh,
+                Operation::Random(_) => K::Leaf([true; 3], true),
                 Operation::CreateTuple => K::Tup(deps),
                 Operation::TupleGet(i) => match &deps[0] { K::Tup(t) => t[i as usize].clone(), o => o.clone() },
                 Operation::NOP => match send {
                     Some((s, r)) => match deps[0].send(s, r) {
                         Ok(k) => k,
-                        Err(m) => { v.push(format!("node {}: Send({},{}): {}", node.get_id(), s, r, m)); let mut h = [false; 3]; h[s] = true; h[r] = true; K::Leaf(h) }
+                        Err(m) => { v.push(format!("node {}: Send({},{}): {}", node.get_id(), s, r, m)); let mut h = [false; 3]; h[s] = true; h[r] = true; K::Leaf(h, false) }
                     },
                     None => deps[0].clone(),
                 },
-                _ => { let mut h = [true; 3]; for d in &deps { let dh = d.holders(); for i in 0..3 { h[i] &= dh[i]; } } K::Leaf(h) }
+                _ => { let mut h = [true; 3]; let mut l = false; for d in &deps { let dh = d.holders(); l |= d.local(); for i in 0..3 { h[i] &= dh[i]; } } K::Leaf(h, l) }
             };
             ks.push(k);
         }
@@ -193,10 +204,10 @@ mod party_sim {
         let ko = ks[out.get_id() as usize].clone();
         if outs.is_empty() {
             if let K::Tup(t) = &ko {
-                for i in 0..3 { let h = t[i].holders(); if !(h[i] && h[(i + 2) % 3]) { v.push(format!("shared output: share {} is held by {:?}, not by parties {} and {}", i, h, i, (i + 2) % 3)); } }
+                for i in 0..3 { let h = t[i].common(); if !(h[i] && h[(i + 2) % 3]) { v.push(format!("shared output: share {} is held by {:?}, not by parties {} and {}", i, h, i, (i + 2) % 3)); } }
             }
         } else {
-            let h = ko.holders();
+            let h = ko.common();
             for p in outs { if !h[*p as usize] { v.push(format!("output party {} never obtains the result (held by {:?})", p, h)); } }
         }
         Ok(v)
@@ -248,7 +259,7 @@ mod party_sim {
                                 "what": "per-party knowledge analysis of the graph produced by prepare_for_mpc_evaluation (real compiler)"});
                         }
                     }
-                    if want == "C01" || want == "any" {
+                    if (want == "C01" || want == "any") && case.exact {
                         let inputs = mk_inputs(&case, seed % 7);
                         let t = plain_c.get_main_graph().unwrap().get_output_node().unwrap().get_type().unwrap();
                         let m = t.get_scalar_type().get_modulus();
@@ -570,6 +581,55 @@ fn prf_purity(seed: u64) -> serde_json::Value {
         Ok(Err(e)) => json!({"found": false, "routine": "prf_purity", "error": e.to_string()}), Err(_) => json!({"found": true, "routine": "prf_purity", "property": "C15", "observed": "panic"}) }
 }
 
+// C05 / C01 end to end: source graph compiled by prepare_for_mpc_evaluation and evaluated under random tapes
+fn compile_simple(c: &ciphercore_base::graphs::Context, owners: Vec<ciphercore_base::mpc::mpc_compiler::IOStatus>, outs: Vec<ciphercore_base::mpc::mpc_compiler::IOStatus>) -> Result<(ciphercore_base::graphs::Context, Graph)> {
+    use ciphercore_base::inline::inline_ops::{InlineConfig, InlineMode};
+    use ciphercore_base::mpc::mpc_compiler::prepare_for_mpc_evaluation;
+    let m = prepare_for_mpc_evaluation(c, vec![owners], vec![outs], InlineConfig { default_mode: InlineMode::Simple, ..Default::default() })?.get_context();
+    let g = m.get_main_graph()?;
+    Ok((m, g))
+}
+// Truncate(2^k) of a private value: floor or floor+1 for every k in 1..=width-2, inputs in the documented range incl. boundaries; non-power-of-two scales within one unit
+fn truncate_compiled(seed: u64) -> serde_json::Value {
+    use ciphercore_base::graphs::util::simple_context;
+    use ciphercore_base::mpc::mpc_compiler::IOStatus;
+    let _ = seed;
+    let mut tried = 0u64;
+    for (st, w, signed) in [(INT8, 8u32, true), (UINT8, 8, false), (INT16, 16, true), (INT32, 32, true), (UINT64, 64, false), (INT64, 64, true)] {
+        let lo: i128 = if signed { -(1i128 << (w - 2)) } else { 0 };
+        let hi: i128 = if signed { (1i128 << (w - 2)) - 1 } else { (1i128 << (w - 1)) - 1 };
+        let inputs: Vec<i128> = vec![lo, lo + 1, -1, 0, 1, hi - 1, hi, hi / 3, lo / 3].into_iter().filter(|x| *x >= lo && *x <= hi).collect();
+        let t = array_type(vec![inputs.len() as u64], st);
+        let raw: Vec<u64> = inputs.iter().map(|x| *x as i64 as u64).collect();
+        let v = Value::from_flattened_array(&raw, st).unwrap();
+        let mut scales: Vec<u128> = vec![]; for k in [1, 2, w - 3, w - 2] { if k >= 1 && k <= w - 2 && !scales.contains(&(1u128 << k)) { scales.push(1u128 << k); } }
+        if signed { scales.push(3); scales.push(10); }
+        for scale in scales {
+            let p2 = scale.is_power_of_two();
+            let r = catch_unwind(AssertUnwindSafe(|| -> Result<Option<serde_json::Value>> {
+                let c = simple_context(|g| { let i = g.input(t.clone())?; g.truncate(i, scale) })?;
+                let (_keep, g) = compile_simple(&c, vec![IOStatus::Party(0)], vec![IOStatus::Party(1)])?;
+                let reps = if p2 { 40 } else { 10 };
+                for _ in 0..reps {
+                    let out = random_evaluate(g.clone(), vec![v.clone()])?.to_flattened_array_u64(t.clone())?;
+                    for (x, y) in inputs.iter().zip(out.iter()) {
+                        tried += 1;
+                        let y: i128 = if signed { let sh = 64 - w; (((*y as i64) << sh) >> sh) as i128 } else { (*y & (u64::MAX >> (64 - w))) as i128 };
+                        let ok = if p2 { let f = x.div_euclid(scale as i128); y == f || y == f + 1 } else if x.abs() < (1i128 << (w / 2)) { (y - x / scale as i128).abs() <= 1 } else { true };
+                        if !ok { return Ok(Some(json!({"found": true, "routine": "truncate_compiled", "property": "C05", "input": {"scalar_type": format!("{}", st), "scale": scale.to_string(), "x": x.to_string(), "owner": "party 0"},
+                            "observed": y.to_string(), "expected": if p2 { "floor(x/2^k) or floor(x/2^k)+1" } else { "plaintext quotient +-1" }, "what": "Truncate compiled by prepare_for_mpc_evaluation and evaluated with random tapes"}))); }
+                    }
+                }
+                Ok(None)
+            }));
+            match r { Ok(Ok(Some(v))) => return v, Ok(Ok(None)) => {},
+                Ok(Err(e)) => return json!({"found": true, "routine": "truncate_compiled", "property": "C05", "input": {"scalar_type": format!("{}", st), "scale": scale.to_string()}, "observed": format!("error: {}", e)}),
+                Err(_) => return json!({"found": true, "routine": "truncate_compiled", "property": "C05", "input": {"scalar_type": format!("{}", st), "scale": scale.to_string()}, "observed": "panic"}) }
+        }
+    }
+    json!({"found": false, "routine": "truncate_compiled", "tried": tried})
+}
+
 // C14: per-party shares reconstruct the secret, for scalars, arrays (incl. bits and 128-bit) and nested containers
 fn share_roundtrip(seed: u64) -> serde_json::Value {
     use ciphercore_base::random::PRNG;
@@ -621,6 +681,7 @@ fn main() {
         Some("arith_kernels") => arith_kernels(seed),
         Some("cmp_small_widths") => cmp_small_widths(seed),
         Some("share_roundtrip") => share_roundtrip(seed),
+        Some("truncate_compiled") => truncate_compiled(seed),
         Some("prf_purity") => prf_purity(seed),
         Some("adder_small_widths") => adder_small_widths(seed),
         Some("party_sim_c01") => party_sim::run(seed, "C01"),
